@@ -5,6 +5,7 @@ package main
 
 import (
 	"fmt"
+	"go/constant"
 	"go/token"
 	"go/types"
 	"math"
@@ -177,6 +178,38 @@ func scenariosFor(w *World, row guardRow, f *ssa.Function) ([]scenario, string) 
 		s.Kind = scParseFail
 		return []scenario{s}, ""
 	case "OPT":
+		// the declared constants of the option type: if they are the integers lo..hi,
+		// "not a declared option" is the two regions below lo and above hi (this also
+		// decides table-dispatch idioms such as `int(option) >= len(table)`)
+		if row.Param < len(f.Params) {
+			if nt, ok := f.Params[row.Param].Type().(*types.Named); ok && nt.Obj().Pkg() != nil {
+				var vals []int64
+				sc := nt.Obj().Pkg().Scope()
+				for _, n := range sc.Names() {
+					if c, ok := sc.Lookup(n).(*types.Const); ok && types.Identical(c.Type(), nt) {
+						if v, ok := constant.Int64Val(c.Val()); ok {
+							vals = append(vals, v)
+						}
+					}
+				}
+				if len(vals) > 0 {
+					lo, hi := vals[0], vals[0]
+					seen := map[int64]bool{}
+					for _, v := range vals {
+						seen[v] = true
+						if v < lo {
+							lo = v
+						}
+						if v > hi {
+							hi = v
+						}
+					}
+					if int64(len(seen)) == hi-lo+1 {
+						return []scenario{mk(-inf, float64(lo-1)), mk(float64(hi+1), inf)}, ""
+					}
+				}
+			}
+		}
 		s := base
 		s.Kind = scOption
 		return []scenario{s}, ""
@@ -669,7 +702,6 @@ func ruleNoPartial(w *World, r *Report, fn string) {
 		r.add("NOPARTIAL", fn, w.Pos(f.Pos()), Undecided, "no failure return found")
 	}
 }
-
 
 // checkTwoPass: Discharged if the scenario always fails; otherwise a second
 // exploration assumes that every validation-shaped test of the subject that
